@@ -8,7 +8,7 @@
 From Coq Require Import Sorted.
 From GixV.Base Require Import Bytes BytesFacts Outcome.
 From Coq Require Import Permutation.
-From GixV.C09 Require Import Model ProofsBisect ProofsOrder ProofsLookup ProofsFanout ProofsWrite ProofsLayout ProofsOffsets ProofsMidxOffsets ProofsMidxTable.
+From GixV.C09 Require Import Model ProofsBisect ProofsOrder ProofsLookup ProofsFanout ProofsWrite ProofsLayout ProofsOffsets ProofsMidxOffsets ProofsMidxTable ProofsMidxDedup.
 Local Open Scope N_scope.
 
 (* a full-id lookup finds an id exactly when it is present, and the index it returns holds that id;
@@ -161,6 +161,15 @@ Theorem midx_table : forall all,
   (forall e, In e es -> In e all) /\
   exists fan, fanout (map (fun e => first_byte (mid_ e)) es) = Ok fan /\ fan_of (map mid_ es) fan.
 Proof. exact L_midx_table. Qed.
+
+(* multi-pack index, pack assignment: the copy of an id that survives sort + dedup is a collected entry
+   and, among all collected entries with that id, the one from the index file with the newest mtime,
+   ties going to the lowest pack index *)
+Theorem midx_dedup_newest : forall all e,
+  In e (dedup_by_id (sort_by cmp_mentry all)) ->
+  In e all /\ forall e', In e' all -> mid_ e' = mid_ e ->
+    mmtime e' <= mmtime e /\ (mmtime e' = mmtime e -> mpack e <= mpack e').
+Proof. exact L_midx_dedup_newest. Qed.
 
 (* non-vacuity, and one byte-level instance end to end: three entries (one offset in the 64-bit
    table), written, opened, looked up by id and by prefix *)
